@@ -1,14 +1,14 @@
 ENTRY = {
     "level": "proof",
     "families": [
-        fam("C03", 160, 8000),
+        fam("C03", 160, 1600),
         # the shared SQL generator in meta mode: optimized vs unoptimized inside ONE layout (cross-layout differences are C04's)
-        fam("SQL", 150, 10000, driver="SQL",
+        fam("SQL", 150, 1500, driver="SQL",
             opts={"quick": {"prop": "C03", "mode": "meta", "cfgs": "mem1,mem1+noopt",
                             "strata": "filter,case,join,agg,distinct,setop,cte,values,sort_limit", "deny": "subquery,gsets", "types": "i64,f64,date,bool,i64", "sizes": "tiny,small"},
                   "thorough": {"prop": "C03", "mode": "meta", "cfgs": "mem1,mem1+noopt,memb,memb+noopt,mem1+only:JoinReorder,mem1+without:JoinReorder",
                                "strata": "filter,case,join,agg,distinct,setop,cte,values,sort_limit", "deny": "subquery,gsets", "types": "i64,f64,date,bool,i64", "sizes": "tiny,small"}}),
-        fam("SQL", 150, 10000, driver="SQL",
+        fam("SQL", 150, 1500, driver="SQL",
             opts={"quick": {"prop": "C03", "mode": "meta", "cfgs": "pq2x7,pq2x7+noopt", "nulls": "0",
                             "strata": "filter,case,join,agg,distinct,setop,cte,values,sort_limit", "deny": "subquery,gsets", "types": "i64,f64,date,bool,i64", "sizes": "tiny,small"},
                   "thorough": {"prop": "C03", "mode": "meta", "cfgs": "pq2x7,pq2x7+noopt,pq1x0,pq1x0+noopt", "nulls": "0",
